@@ -389,6 +389,12 @@ def check_unescape(ctx):
                 for y in sir.walk(x):
                     if y.get("k") == "range" and y.get("to") is not None and y["to"].get("k") == "lit":
                         return int(y["to"]["v"]) - (int(y["from"]["v"]) if y.get("from") else 0)
+                # the branch yields the digit count itself (`let n = if c == 'x' { 2 } else { 4 }; for _ in 0..n`)
+                t_ = x
+                while t_ is not None and t_.get("k") == "block" and len(t_["stmts"]) == 1 and t_["stmts"][0].get("k") == "expr" and not t_["stmts"][0].get("semi"):
+                    t_ = t_["stmts"][0]["e"]
+                if t_ is not None and t_.get("k") == "lit" and t_.get("t") == "int":
+                    return int(t_["v"])
                 return None
             t, e = rng(n["then"]), rng(n["else"]) if n.get("else") else None
             widths.append((which, t, e))
